@@ -8,16 +8,17 @@ CHECKS = {
         note="Trusted: the harness's Model impls (from_val / to_val) for the built-in types and Val equality; the value generator's reach is what bounds the claim.",
         technique='runtime round-trip monitor over a generated type catalogue, value-level oracle',
         level="exploration",
-        quick=NATIVE,
-        thorough=NATIVE + [("fresh", 1.0, {"only": "fresh"}), ("msan", 0.05)],
+        quick=NATIVE + [("dbg", 2.0, {"only": "local", "tz": "CET-1CEST,M3.5.0,M10.5.0/3"}), ("rel", 2.0, {"only": "local", "tz": "EST5EDT,M3.2.0,M11.1.0"})],
+        thorough=NATIVE + [("fresh", 1.0, {"only": "fresh"}), ("msan", 0.05), ("dbg", 5.0, {"only": "local", "tz": "CET-1CEST,M3.5.0,M10.5.0/3"}),
+                           ("rel", 5.0, {"only": "local", "tz": "EST5EDT,M3.2.0,M11.1.0"}), ("rel", 5.0, {"only": "local", "tz": "<+1030>-10:30<+11>-11,M10.1.0,M4.1.0"})],
         rule="for every type expression of the catalogue (every leaf codec; every constructor x arity x rotating leaf; "
              "seeded compositions to depth 4; thorough adds fresh compositions from VERIF_SEED) boundary-biased values are "
              "generated at the Val level, encoded by the library and decoded again; a case is non-trivial and distinct when "
              "the library produced an encoding and the pair (type, encoding bytes) was not seen before in its shard "
              "(shards partition the types, so the per-shard sets are disjoint)",
-        floors={"any": {"roundtrip_ok": 1000, "types": 100}},
+        floors={"any": {"roundtrip_ok": 1000, "types": 100, "local_time_cases_under_dst_zone": 1000}},
         assumptions=["Val equality (floats by bit pattern, sets/maps order-free) is the equality the property means",
-                     "TZ=UTC is pinned for DateTime<Local>"],
+                     "TZ=UTC is pinned for all lanes except the local-time lanes, which set TZ to a daylight-saving zone by POSIX rule and skip wall-clock times that zone cannot represent unambiguously"],
     ),
     "C02": dict(
         claim="Translation validation by execution: each generated declaration is compiled with the real derive macro and run side by side with the reference model's schema interpreter on the same values (bytes and decoded values must agree). Held on the declarations and values reported in the evidence.",
@@ -140,7 +141,7 @@ CHECKS = {
         quick=NATIVE,
         thorough=[("dbg", 1.0), ("rel", 1.0, {"exhaustive": "1"})],
         rule="every (kind, bit pattern) pair is one case covering bytes, length, continuation bits and the 3x3 sink/source matrix; all cases are non-trivial; distinct by (kind, value); the thorough tier enumerates the whole space (exhaustive: true)",
-        floors={"any": {"values_checked": 100000}},
+        floors={"any": {"values_checked": 100000, "values_checked_inside_regions": 100000}},
         coverage_extra={"exhaustive": lambda counters, tier: counters.get("exhaustive_bit_patterns", 0) == 2**32},
     ),
     "C12": dict(
